@@ -116,6 +116,10 @@ def mk_input(outer, menu, idxs, wrap):
             v = tuple(elems)
         elif outer == 'gen':
             v = (x for x in elems)
+        elif outer == 'groupby':
+            # members that depend on how far the OUTER iterator has advanced: groupby groups share one underlying iterator
+            pairs = [(i, x) for i, e in enumerate(elems) for x in e]
+            v = (g for _, g in itertools.groupby(pairs, key=lambda p: p[0]))
         elif outer == 'dictkeys':
             v = OrderedDict((e, i) for i, e in enumerate(elems))
     return {'k': v} if wrap else v
@@ -125,6 +129,8 @@ def ref_items(outer, menu, idxs):
     if outer == 'scalar':
         raise TypeError('not iterable')
     elems = mk_elems(menu, idxs)
+    if outer == 'groupby':
+        return [[(i, x) for x in e] for i, e in enumerate(elems) if len(e)]
     if outer == 'dictkeys':
         return list(OrderedDict((e, i) for i, e in enumerate(elems)).keys())
     return elems
@@ -246,7 +252,7 @@ def one_eval(spec, spec_term, inp):
     outer, menu, idxs = inp
     wrap = spec_term[1] == 'k'
     target = mk_input(outer, menu, idxs, wrap)
-    before = canon(target) if outer != 'gen' else None
+    before = canon(target) if outer not in ('gen', 'groupby') else None
     try:
         want = ('ok', reference(spec_term, apply_sub(spec_term[1], ref_items(outer, menu, idxs))))
     except Exception as e:
@@ -392,8 +398,10 @@ def gen_inputs(tier):
     for menu in MENUS:
         for n in range(0, maxlen + 1):
             for idxs in itertools.product(range(3), repeat=n):
-                for outer in ('list', 'tuple', 'gen', 'dictkeys'):
+                for outer in ('list', 'tuple', 'gen', 'dictkeys', 'groupby'):
                     if outer == 'dictkeys' and menu not in ('ints', 'strs', 'tuples', 'floats'):
+                        continue
+                    if outer == 'groupby' and (menu not in ('lists', 'tuples', 'strs') or n == 0):
                         continue
                     if outer in ('tuple', 'gen', 'dictkeys') and n == 3 and tier == 'quick' and idxs[0] != 0:
                         continue
@@ -422,6 +430,16 @@ def gen_specs():
     return specs
 
 
+def groupby_ok(spec_term):
+    if spec_term[1] not in ('T', 'k'):
+        return False       # a [x] sub-spec materialises the outer iterator first: the groups are spent, as in plain Python
+    if spec_term[0] == 'flatten':
+        return spec_term[2] in ('lazy', 'list')
+    if spec_term[0] == 'sum':
+        return spec_term[2] == 'list'
+    return spec_term[0] == 'fold' and spec_term[2] == 'list' and spec_term[3] == 'iadd'
+
+
 def gen_cases(tier):
     inputs = gen_inputs(tier)
     specs = gen_specs()
@@ -430,6 +448,8 @@ def gen_cases(tier):
     for si, s in enumerate(specs):
         for ii, a in enumerate(inputs):
             b = inputs[(ii * 7 + si + 1) % n]   # a different input for the third evaluation (deterministic pairing)
+            if 'groupby' in (a[0], b[0]) and not groupby_ok(s):
+                continue       # group iterators are only comparable once they have been chained into a list
             cases.append([s, a, b])
     return cases
 
